@@ -568,11 +568,37 @@ def gen_perturb(ctx, i):
     src_arr = np.arange(1, N + 1, dtype=np.int32).reshape(src_g['shape'])
     idx = np.arange(N).reshape(src_g['shape'])
     tgt_g, tidx, ops = random_chain(r, copy_geom(src_g), idx, r.choice([0, 1, 2]))
-    kind = r.choice(['shift', 'shift', 'scale', 'scale', 'rotate', 'rotate', 'for', 'cs', 'big-rotate', 'big-shift', 'big-scale'])
+    kind = r.choice(['shift', 'shift', 'scale', 'scale', 'rotate', 'rotate', 'for', 'cs', 'big-rotate', 'big-shift', 'big-scale',
+                     'scale-stride'])
     f = r.choice(FACTORS)
     a = r.randrange(3)
     tol = TOL
     info = {'kind': kind, 'factor': str(f), 'axis': a}
+    if kind == 'scale-stride':
+        # absolute vs relative reading of the scale tolerance: a long axis with a tiny spacing, a large stride m, and a spacing
+        # ratio m + e with e a factor 4.04 above tol (absolute: refused) and at least a factor 3.96 below m tol (relative: accepted);
+        # the spacing is so small that the final comparison of the affines (absolute, mm) would let the result pass
+        m = r.choice([16, 32])
+        a = r.randrange(3)
+        src_g = random_source(r)
+        src_g['dir'] = [list(d) for d in r.choice(SP)]
+        src_g['exact'] = True
+        src_g['shape'] = [2, 2, 2]
+        src_g['shape'][a] = 2 * m + 1
+        src_g['spacing'] = [r.choice([F(1), F(2)]) for _ in range(3)]
+        src_g['spacing'][a] = r.choice([F(1, 64), F(1, 128)])
+        src_g['pos'] = [F(r.randint(-8, 8), 8) for _ in range(3)]
+        N = int(np.prod(src_g['shape']))
+        src_arr = np.arange(1, N + 1, dtype=np.int32).reshape(src_g['shape'])
+        sign = r.choice((1, -1))
+        sls = [(0, src_g['shape'][d], 1) for d in range(3)]
+        sls[a] = (0, 2 * m + 1, m) if sign > 0 else (2 * m, -1, -m)
+        tgt_g, _ = op_slice(copy_geom(src_g), np.arange(N).reshape(src_g['shape']), sls)
+        e = F(404, 100) * tol * r.choice((1, -1))
+        tgt_g['spacing'][a] = tgt_g['spacing'][a] + e * src_g['spacing'][a]
+        tgt_g['exact'] = False
+        info.update({'factor': '4.04', 'axis': a, 'stride': sign * m, 'which': 'index'})
+        return src_g, src_arr, tgt_g, ['crop:strided'], info, tol
     if kind == 'shift':
         # index-space boundary: |start_ind - round| vs tol   (delta in source-voxel units along the target axis a)
         which = r.choice(['index', 'entry'])
@@ -655,6 +681,11 @@ def run_perturb_case(ctx, i, reqs, pending):
              perturb_factor=(info['factor'] if info['kind'] in ('shift', 'scale', 'rotate') else '-'),
              outcome=('ok' if st == 'ok' else res))
     ctx.hist('perturb_outcome', f"{info['kind']}/{info.get('which', '-')}/{float(F(info['factor'])):.3g}/{'ok' if st == 'ok' else 'refused'}")
+    # a spacing that is off an integer multiple of the source spacing by 4 tol or more (in units of the ratio) is refused,
+    # whatever the stride and however small the spacing (tolerance semantics of the scale test: absolute, match_scale_tolerance)
+    if st == 'ok' and info['kind'] in ('scale', 'scale-stride') and info.get('which') == 'index' and F(info['factor']) >= 4:
+        ctx.fail(case, {'what': 'a target whose spacing is not an integer multiple of the source spacing (ratio off by '
+                                f"{info['factor']} tol) was matched", 'stride': info.get('stride')}, site='match_geometry/scale')
     if st == 'ok':
         if info['kind'] in ('for', 'cs'):
             ctx.fail(case, f"target in another {'frame of reference' if info['kind'] == 'for' else 'coordinate system'} was matched",
